@@ -58,4 +58,12 @@ def argmin(
     proxy = numpoly.sortable_proxy(
         a, graded=options["sort_graded"], reverse=options["sort_reverse"]
     )
-    return numpy.argmin(proxy, axis=axis, out=out)
+    # the proxy is a permutation: equal elements get different ranks.  Give equal
+    # elements the same rank, so that ties resolve to the first occurrence as in numpy.
+    order = numpy.argsort(proxy.ravel())
+    ordered = a.ravel()[order]
+    fresh = numpy.ones(order.shape, dtype=bool)
+    fresh[1:] = ordered[1:] != ordered[:-1]
+    ranks = numpy.empty(order.shape, dtype=int)
+    ranks[order] = numpy.cumsum(fresh)
+    return numpy.argmin(ranks.reshape(proxy.shape), axis=axis, out=out)
